@@ -46,6 +46,13 @@ def specs(repo):
              {"exc_type": "exc", "exc_val": "exc", "exc_tb": "exc"}, effects=EFFECTS, siblings=sib, none_value="false",
              model="(fun d (exc : bool) => (free d, false))", unfold=["free"], gen="gen_exit"),
         Spec(repo, PATH, "NotifierDelay", "__del__", ND, [], {}, effects=EFFECTS, siblings=sib, result="state", model="free", gen="gen_del"),
+        # __enter__: must be "returns self, state (object and HAL) unchanged".  The returned value is seen as the bool
+        # "it is the object itself" (`self` -> true; falling off the end / None -> false; anything else is outside the
+        # translator's subset and fails closed).  The clock is supplied so that a version that reads it translates and
+        # is then REFUTED by the lemma instead of being rejected as an unknown shape.
+        Spec(repo, PATH, "NotifierDelay", "__enter__", ND, [("now", "Z")],
+             {"self": "true", "wpilib.RobotController.getFPGATime()": "now"}, effects=EFFECTS, siblings=sib, none_value="false",
+             model="(fun d (now : Z) => enter d)", unfold=["enter"], gen="gen_enter"),
     ]
 
 
@@ -59,7 +66,7 @@ def coq(repo):
 
 def obligation(ctx):
     from .common import REPO
-    name = "regen:NotifierDelay.__init__/wait/free/__exit__/__del__ have the shape the translator recognises"
+    name = "regen:NotifierDelay.__init__/wait/free/__enter__/__exit__/__del__ have the shape the translator recognises"
     try:
         text = coq(REPO)
     except Shape as e:
@@ -70,7 +77,7 @@ def obligation(ctx):
         return False
     ctx.obligation(name, True, "")
     rc, out = ctx.coq_file("Gen_delay", text)
-    ctx.obligation("regen:Gen_delay (NotifierDelay methods translated from the source == Delay.Model create/wait/free, for all states and inputs)",
+    ctx.obligation("regen:Gen_delay (NotifierDelay methods translated from the source == Delay.Model create/wait/free/enter/exit_, for all states and inputs)",
                    rc == 0, out[-1500:])
     return rc == 0
 
